@@ -170,6 +170,26 @@ def build_files(P, R):
             T = R.choice(others)
             add(f"[*em* txt]({rel(D['name'], T['name'])}.md#nosuch-slug-{di})", {"kind": "missing", "needle": f"nosuch-slug-{di}", "explicit": True, "to": T["name"]})
         add(f"[*em* txt](#nosuch-label-{di})", {"kind": "missing", "needle": f"nosuch-label-{di}", "explicit": True})
+        # a snippet that lives in the project root and is written relative to it, included with :relative-docs: <top directory>/
+        deep = [T for T in others if "/" in T["name"]]
+        if deep and R.random() < 0.6:
+            T = R.choice(deep)
+            prefix = T["name"].split("/")[0] + "/"
+            hi = R.randrange(len(T["heads"]))
+            sl = uniq([slug0(T["title"])] + [slug0(h) for h in T["heads"]])[hi + 1]
+            S = []
+            for j, (md, exp) in enumerate([
+                (f"[]({T['name']}.md)", {"kind": "doc", "to": T["name"], "explicit": False, "text": T["title"]}),
+                (f"[]({T['name']})", {"kind": "doc", "to": T["name"], "explicit": False, "text": T["title"]}),
+                (f"[*em* txt]({T['name']})", {"kind": "doc", "to": T["name"], "explicit": True, "xt": "em"}),
+                (f"[*em* txt]({T['name']}.md#{sl})", {"kind": "slug", "to": T["name"], "head": hi, "explicit": True, "xt": "em"}),
+            ]):
+                mk = f"LK{di}x{900 + j}"
+                S += [f"{mk} {md} end", ""]
+                exp.update(marker=mk, line=2 * j + 1, loc_file=f"inc_{di}.md", md=md + " (in a root-level snippet included with :relative-docs: " + prefix + ")", via_include=True)
+                mine.append(exp)
+            files[f"inc_{di}.md"] = "\n".join(S)
+            L += ["```{include} " + rel(D["name"], f"inc_{di}.md"), f":relative-docs: {prefix}", "```", ""]
         files[D["name"] + ".md"] = "\n".join(L) + "\n"
         links[D["name"]] = mine
     toc = ["# Index", "", "```{toctree}"] + [d["name"] for d in docs] + ["```", ""]
@@ -274,7 +294,7 @@ def judge(ctx, case, b, P, links, files, recs, stage):
             elif k == "missing":
                 if lk.get("by_location"):
                     # a link whose target was removed by the mutation: identified by its position
-                    hits = [i for i, rr in enumerate(recs) if i not in used and re.search(re.escape(D["name"] + ".md") + ":" + str(lk["line"]) + "$", str(rr["location"] or ""))]
+                    hits = [i for i, rr in enumerate(recs) if i not in used and re.search(re.escape(lk.get("loc_file") or (D["name"] + ".md")) + ":(?:" + str(lk["line"]) + ("|" + str(lk["line"] + 1) if lk.get("loc_file") else "") + ")$", str(rr["location"] or ""))]  # lines inside included files: C04's business (known +1)
                 else:
                     hits = [i for i, rr in enumerate(recs) if lk["needle"] in rr["msg"] and i not in used]
                 if len(hits) != 1:
@@ -283,7 +303,7 @@ def judge(ctx, case, b, P, links, files, recs, stage):
                     used.add(hits[0])
                     loc = recs[hits[0]]["location"] or ""
                     m = re.search(r":(\d+)$", str(loc))
-                    if not (D["name"] + ".md") in str(loc) or (m and int(m.group(1)) != lk["line"]):
+                    if not (lk.get("loc_file") or (D["name"] + ".md")) in str(loc) or (m and int(m.group(1)) != lk["line"] and not lk.get("loc_file")):
                         ctx.violation(pre + "missing:warning-location", f"the warning for {lk['md']} is located at {loc!r}; the link is on line {lk['line']} of {D['name']}.md", case, detail)
                     else:
                         ctx.count("missing_warned_once_at_line")
@@ -332,7 +352,7 @@ def eval_case(ctx, case):
     R = random.Random(case["seed"])
     P = make_project(R)
     files, links = build_files(P, R)
-    b = drive.SphinxBuild(dict(files), conf={"myst_heading_anchors": P["anchors"]}, builder="html", parallel=case.get("parallel", 0))
+    b = drive.SphinxBuild(dict(files), conf={"myst_heading_anchors": P["anchors"], "exclude_patterns": ["inc_*.md"]}, builder="html", parallel=case.get("parallel", 0))
     try:
         try:
             b.build()
